@@ -1448,6 +1448,35 @@ func (m *Machine) floatToInt(ii intInfo, x *SymFloat) Value {
 	if !ok {
 		unsupported("integer conversion of non-finite float")
 	}
+	if x.M != nil && x.Esel != nil {
+		// exact integer arithmetic per exponent case: trunc(M * 2^E)
+		var t *smt.Term
+		for i := len(x.Exps) - 1; i >= 0; i-- {
+			e := x.Exps[i]
+			var ci *smt.Term
+			switch {
+			case e >= 0:
+				ci = c.Mul(c.BigInt(new(big.Int).Lsh(big.NewInt(1), uint(e))), x.M)
+			case -e >= 64:
+				ci = c.Int(0)
+			default:
+				d := c.BigInt(new(big.Int).Lsh(big.NewInt(1), uint(-e)))
+				// truncation toward zero
+				ci = c.Ite(c.Le(c.Int(0), x.M), c.IDiv(x.M, d), c.Neg(c.IDiv(c.Neg(x.M), d)))
+			}
+			if t == nil {
+				t = ci
+			} else {
+				t = c.Ite(c.Eq(x.Esel, c.Int(int64(i))), ci, t)
+			}
+		}
+		t = m.simp(t)
+		if !m.Branch(c.InRange(t, ii.lo, ii.hi), "float-to-int-range") {
+			return wrapInt(ii, ii.lo)
+		}
+		m.DeclareRange(t, ii.lo, ii.hi)
+		return SymInt{t}
+	}
 	// k = trunc(r): introduce k with k <= |r| < k+1 on the absolute value.
 	k := c.Var(fmt.Sprintf("trunc!%d", r.ID), smt.SInt)
 	nonneg := c.Le(c.RatInt(0), r)
